@@ -19,6 +19,11 @@ const LIVE: usize = 3;
 /// Threads whose clock components are symbolic.
 const NT: usize = 3;
 
+/// element-wise equality (array `==` is a memcmp loop of 10 iterations)
+fn eq(a: &Raw, b: &Raw) -> bool {
+    le(a, b) && le(b, a)
+}
+
 fn lt(a: &Raw, b: &Raw) -> bool {
     le(a, b) && !le(b, a)
 }
@@ -151,7 +156,7 @@ fn assume_inv(st: &State, set: &thread::Set) {
             let mut j = 0;
             while j < LIVE {
                 if j != i && live(st, j) {
-                    kani::assume(mo(st, i) != mo(st, j));
+                    kani::assume(!eq(&mo(st, i), &mo(st, j)));
                 }
                 j += 1;
             }
@@ -607,4 +612,271 @@ vharness! {
     /// @prop C03,C02 @tier thorough @mode full @funcs atomic::State::load,atomic::State::apply_load_coherence @bounds ring of 3 live stores, slot 2 read, reader = thread 0
     /// load lemma, newest slot.
     fn atomic_load_lemma_c3_i2_t0() { load_case(0, 3, 2) }
+}
+
+// ------------------------------------------------------------ rmw (C03 atomicity, release sequences)
+
+fn rmw_case(active: usize, cnt: usize, index: usize) {
+    let mut set = any_threads(active);
+    let mut st = any_state(cnt);
+    assume_inv(&st, &set);
+    kani::assume(vv_raw(&tv::th_ref(&set, active).causality)[active] < u16::MAX - 1);
+    set.active_causality_inc();
+    let cur = vv_raw(&tv::th_ref(&set, active).causality);
+    let rel = vv_raw(&tv::th_ref(&set, active).released);
+    let um = any_clock();
+    kani::assume(le(&um, &cur));
+    st.unsync_mut_at = vv(um);
+    let ul = any_clock();
+    kani::assume(le(&ul, &cur));
+    st.unsync_loaded_at = vv(ul);
+    // the store read must be modification-order-maximal (what match_rmw offers)
+    let mut j = 0;
+    while j < cnt {
+        if j != index {
+            kani::assume(!lt(&mo(&st, index), &mo(&st, j)));
+        }
+        j += 1;
+    }
+    let succ: u8 = kani::any();
+    kani::assume(succ <= 4);
+    let fail: u8 = kani::any();
+    kani::assume(fail == 0 || fail == 2 || fail == 4);
+    let do_write: bool = kani::any();
+    let next: u64 = kani::any();
+
+    let old_sync = sv::raw(&st.stores[index].sync);
+    let old_val = st.stores[index].value;
+    let mut old_mo = [[0u16; MAX_THREADS]; LIVE];
+    let mut i = 0;
+    while i < LIVE {
+        old_mo[i] = mo(&st, i);
+        i += 1;
+    }
+
+    let r = st.rmw(&mut set, index, Location::disabled(), sv::ordering(succ), sv::ordering(fail), |v| {
+        if do_write { Ok(next) } else { Err(v) }
+    });
+
+    let after = vv_raw(&tv::th_ref(&set, active).causality);
+    if do_write {
+        assert!(r == Ok(old_val));
+        assert!(st.cnt as usize == cnt + 1);
+        let n = cnt;
+        assert!(st.stores[n].value == next);
+        // atomicity: the new store directly follows the one read -- it is
+        // ordered after it and after every other live store that the one read
+        // was not ordered before (index was maximal), so nothing can sit between
+        assert!(lt(&mo(&st, index), &mo(&st, n)));
+        let mut k = 0;
+        while k < cnt {
+            assert!(!lt(&mo(&st, n), &mo(&st, k)));
+            assert!(mo(&st, n) != mo(&st, k));
+            k += 1;
+        }
+        // view transfer of the read half: success ordering
+        let acq = succ >= 2;
+        let view = if acq { max_raw(&cur, &old_sync) } else { cur };
+        assert!(after == view);
+        // release sequence: the new store carries the release view of the store
+        // read, plus the writer's release-fence view, plus (release-class
+        // success ordering) the writer's full view
+        let relc = succ == 1 || succ >= 3;
+        let mut es = max_raw(&old_sync, &rel);
+        if relc {
+            es = max_raw(&es, &view);
+        }
+        assert!(sv::raw(&st.stores[n].sync) == es);
+        assert!(hb(&st, n) == view);
+        assert!(st.stores[n].seq_cst == (succ == 4));
+    } else {
+        assert!(r == Err(old_val));
+        assert!(st.cnt as usize == cnt);
+        let acq = fail >= 2;
+        assert!(after == if acq { max_raw(&cur, &old_sync) } else { cur });
+    }
+    // the store read is marked as seen by the reader; its release view is unchanged
+    assert!(st.stores[index].first_seen.0[active] != u16::MAX);
+    assert!(sv::raw(&st.stores[index].sync) == old_sync);
+    kani::cover!(do_write && succ == 0 && !le(&old_sync, &cur), "relaxed RMW continues a release sequence it does not acquire");
+    kani::cover!(do_write && succ == 3, "AcqRel RMW");
+    kani::cover!(!do_write && fail == 2 && !le(&old_sync, &cur), "failed CAS with Acquire failure ordering");
+    std::mem::forget(set);
+}
+
+vharness! {
+    /// @prop C03 @tier quick @mode full @funcs atomic::State::rmw,atomic::State::store,atomic::State::apply_load_coherence,atomic::State::track_load,atomic::State::track_store,Synchronize::sync_load,Synchronize::sync_store @bounds ring of 2 live stores, slot 1 read (modification-order-maximal), all success orderings, failure orderings Relaxed/Acquire/SeqCst, symbolic clocks over 3 threads, thread 1
+    /// RMW atomicity and release sequences: the new store is ordered directly after the store read and after nothing it should precede; it inherits the read store's release view; the read half transfers the view per success/failure ordering; a failed RMW writes nothing.
+    fn atomic_rmw_lemma_c2_i1_t1() { rmw_case(1, 2, 1) }
+}
+
+vharness! {
+    /// @prop C03 @tier quick @mode full @funcs atomic::State::rmw @bounds ring of 3 live stores, slot 0 read, thread 2, otherwise as atomic_rmw_lemma_c2_i1_t1
+    /// RMW lemma reading an old slot that is still modification-order-maximal (concurrent stores).
+    fn atomic_rmw_lemma_c3_i0_t2() { rmw_case(2, 3, 0) }
+}
+
+// ------------------------------------------------------------ fences (C02 / C03)
+
+fn fence_case(kind: u8, active: usize) {
+    use crate::rt::execution::verif as ev;
+    let mut e = ev::mk_exec(NT, 4, None);
+    ev::set_threads(&mut e, any_threads(active));
+    let seq = any_clock();
+    e.threads.seq_cst_causality = vv(seq);
+    let a = any_state(2);
+    assume_inv(&a, &e.threads);
+    kani::assume(vv_raw(&tv::th_ref(&e.threads, active).causality)[active] < u16::MAX - 1);
+    let cur0 = vv_raw(&tv::th_ref(&e.threads, active).causality);
+    let mut cur = cur0;
+    cur[active] += 1; // rt::synchronize bumps the fencing thread's own component
+    // reference: an acquire fence synchronises with the release view of exactly
+    // the stores that THIS thread read (a load sequenced before the fence)
+    let mut acq = cur;
+    let mut others_read = false;
+    let syncs = [sv::raw(&a.stores[0].sync), sv::raw(&a.stores[1].sync)];
+    let fss = [a.stores[0].first_seen.0, a.stores[1].first_seen.0];
+    let mut k = 0;
+    while k < 2 {
+        if fss[k][active] != u16::MAX {
+            acq = max_raw(&acq, &syncs[k]);
+        } else if ref_seen(&fss[k], &cur) && !le(&syncs[k], &cur) {
+            others_read = true;
+        }
+        k += 1;
+    }
+    let _ = others_read;
+    let before = [
+        vv_raw(&tv::th_ref(&e.threads, 0).causality),
+        vv_raw(&tv::th_ref(&e.threads, 1).causality),
+        vv_raw(&tv::th_ref(&e.threads, 2).causality),
+    ];
+    let rel0 = vv_raw(&tv::th_ref(&e.threads, active).released);
+    let ra = e.objects.insert(a);
+    let ord = match kind {
+        0 => Ordering::Acquire,
+        1 => Ordering::Release,
+        2 => Ordering::AcqRel,
+        _ => Ordering::SeqCst,
+    };
+
+    crate::rt::scheduler::verif::enter(&mut e, || fence(ord));
+
+    let after = vv_raw(&tv::th_ref(&e.threads, active).causality);
+    let rel = vv_raw(&tv::th_ref(&e.threads, active).released);
+    let seq_after = vv_raw(&e.threads.seq_cst_causality);
+    match kind {
+        0 => {
+            assert!(eq(&after, &acq));
+            assert!(eq(&rel, &rel0));
+            assert!(eq(&seq_after, &seq));
+        }
+        1 => {
+            assert!(eq(&after, &cur));
+            assert!(eq(&rel, &cur));
+            assert!(eq(&seq_after, &seq));
+        }
+        2 => {
+            assert!(eq(&after, &acq));
+            // the release half publishes everything the acquire half learned
+            assert!(eq(&rel, &acq));
+            assert!(eq(&seq_after, &seq));
+        }
+        _ => {
+            let full = max_raw(&acq, &seq);
+            assert!(eq(&after, &full));
+            assert!(eq(&seq_after, &full));
+            // released view: at least the acquire-fence view, at most the final view
+            assert!(le(&acq, &rel) && le(&rel, &full));
+        }
+    }
+    // nobody else's view changes, no store changes
+    let mut t = 0;
+    while t < NT {
+        if t != active {
+            assert!(eq(&vv_raw(&tv::th_ref(&e.threads, t).causality), &before[t]));
+        }
+        t += 1;
+    }
+    assert!(eq(&sv::raw(&ra.get(&e.objects).stores[0].sync), &syncs[0]));
+    assert!(eq(&sv::raw(&ra.get(&e.objects).stores[1].sync), &syncs[1]));
+    if kind != 1 {
+        kani::cover!(!le(&acq, &cur), "fence acquires something through a store this thread read");
+    } else {
+        kani::cover!(!eq(&rel0, &cur), "release fence moves the released view");
+    }
+    std::mem::forget(e);
+}
+
+vharness! {
+    /// @prop C02,C03,C04 @tier thorough @mode fast @cost 4 @timeout 5400 @funcs rt::fence,rt::synchronize,atomic::fence_acq,atomic::State::stores_mut,FirstSeen::is_seen_by_current,Synchronize::sync_load @bounds 1 atomic with a ring of 2 live stores, symbolic clocks over 3 threads, fencing thread 1, unwind 6
+    /// fence(Acquire) joins into the fencing thread exactly the release views of the stores that this thread itself read (no more: C02, no less: C03) and changes nothing else.
+    #[cfg_attr(kani, kani::unwind(6))]
+    fn fence_acquire_exact_t1() { fence_case(0, 1) }
+}
+
+vharness! {
+    /// @prop C02,C03,C04 @tier quick @mode fast @cost 2 @timeout 3600 @funcs rt::fence,atomic::fence_rel @bounds as fence_acquire_exact_t1, fencing thread 0
+    /// fence(Release) snapshots exactly the thread's current view as its released view and acquires nothing.
+    #[cfg_attr(kani, kani::unwind(6))]
+    fn fence_release_exact_t0() { fence_case(1, 0) }
+}
+
+vharness! {
+    /// @prop C02,C03,C04 @tier thorough @mode fast @cost 4 @timeout 5400 @funcs rt::fence,atomic::fence_acqrel,atomic::fence_acq,atomic::fence_rel @bounds as fence_acquire_exact_t1, fencing thread 2
+    /// fence(AcqRel): the released view includes everything the acquire half picked up.
+    #[cfg_attr(kani, kani::unwind(6))]
+    fn fence_acqrel_exact_t2() { fence_case(2, 2) }
+}
+
+vharness! {
+    /// @prop C02,C03,C04 @tier thorough @mode fast @cost 4 @timeout 5400 @funcs rt::fence,atomic::fence_seqcst,Set::seq_cst_fence @bounds as fence_acquire_exact_t1, fencing thread 1
+    /// fence(SeqCst): acquire + release halves plus a two-way join with the global SC-fence view (total order of SC fences).
+    #[cfg_attr(kani, kani::unwind(6))]
+    fn fence_seqcst_exact_t1() { fence_case(3, 1) }
+}
+
+// ------------------------------------------------------------ C01-O4: dependence table
+
+fn any_access(max_path: usize) -> Option<Access> {
+    let present: bool = kani::any();
+    if present {
+        let p: usize = kani::any();
+        kani::assume(p < max_path);
+        let v: [u16; MAX_THREADS] = kani::any();
+        Some(Access::new(p, &vv(v)))
+    } else {
+        None
+    }
+}
+
+fn access_view(a: Option<&Access>) -> Option<(usize, Raw)> {
+    a.map(|a| (a.path_id(), vv_raw(a.version())))
+}
+
+vharness! {
+    /// @prop C01 @tier quick @mode full @funcs atomic::State::last_dependent_access,atomic::State::set_last_access,Access::set_or_create @bounds all 3x3 pairs of {load,store,rmw}, arbitrary earlier records, all clock values
+    /// dependence table of atomic operations: every pair is dependent except load/load -- after recording access a, the last dependent access of a following b is a unless both are loads, in which case it is unchanged.
+    fn atomic_dependence_table() {
+        let p: usize = kani::any();
+        kani::assume(p >= 1 && p < 1000);
+        let mut st = blank_state();
+        st.last_access = any_access(p);
+        st.last_non_load_access = any_access(p);
+        let a: u8 = kani::any();
+        let b: u8 = kani::any();
+        kani::assume(a <= 2 && b <= 2);
+        let to = |c: u8| match c { 0 => Action::Load, 1 => Action::Store, _ => Action::Rmw };
+        let v: Raw = kani::any();
+        let before = access_view(st.last_dependent_access(to(b)));
+        st.set_last_access(to(a), p, &vv(v));
+        let after = access_view(st.last_dependent_access(to(b)));
+        if a == 0 && b == 0 {
+            assert!(after == before);
+        } else {
+            assert!(after == Some((p, v)));
+        }
+        kani::cover!(a == 0 && b == 0 && before.is_some(), "load after load keeps the older store as dependent access");
+        kani::cover!(a == 0 && b == 1, "store after load");
+    }
 }
